@@ -144,15 +144,17 @@ def tr_preload(run):
     m = re.search(r"while\s*\(((?:[^()]|\([^()]*\))*)\)\s*\{\s*srcPosPtr\s*\+\+\s*;\s*\}", db)
     bl = chars(m.group(1), r"\*\s*srcPosPtr\s*==\s*" + CHAR) if m else None
     v["dis_blanks"] = bytes(bl) if bl else None
-    # the "whole line or entry only" decision, in either polarity: if (all != ...) { keep the rest } else {...}  /  if (any == ...) {...} else { keep the rest }
-    KEEP = r"\s*copyLength\s*=\s*\(\s*unsigned\s+int\s*\)\s*strlen\s*\(\s*srcPosPtr\s*\)\s*;\s*"
+    # the "whole line or entry only" decision: an `if` whose condition is nothing but comparisons of *srcPosPtr with characters and of which
+    # exactly one branch moves srcPosPtr to the end of the entry's line (`srcPosPtr = entryPtr + strlen(entryLine)`): that branch is the
+    # else-branch of an all-`!=`/`&&` condition or the then-branch of an all-`==`/`||` condition; the other branch keeps the rest of the
+    # line (it may compute copyLength there, be empty or be absent).  All four arrangements read as the same stop set.
+    WHOLE = r"srcPosPtr\s*=\s*entryPtr\s*\+\s*strlen\s*\(\s*entryLine\s*\)\s*;"
     sp = None
     for (cond, then, els) in parse_ifs(db):
-        if els is None:
-            continue
-        if re.fullmatch(KEEP, then):
+        w_then, w_else = bool(re.search(WHOLE, then)), bool(els is not None and re.search(WHOLE, els))
+        if w_else and not w_then:
             sp = only_comparisons(cond, r"\*\s*srcPosPtr", "!=", "&&")
-        elif re.fullmatch(KEEP, els):
+        elif w_then and not w_else:
             sp = only_comparisons(cond, r"\*\s*srcPosPtr", "==", "||")
         if sp:
             break
